@@ -80,7 +80,10 @@ def make_sim(crates, d, nth=0, extra=None, more_inline=(), opaque=None, max_dept
     hooks = {"call": reader_hook(d, nth, extra)}
     if opaque:
         hooks["opaque"] = opaque
-    return sim.Sim(crates, hooks=hooks, inline=lambda a, b: b.path in inl, max_depth=max_depth)
+    def inline(a, b):
+        # named wrappers, plus any local byte predicate `fn(u8) -> bool` (is_delimiter and friends)
+        return b.path in inl or (b.arg_count == 1 and b.local_ty(1) == "u8" and b.local_ty(0) == "bool")
+    return sim.Sim(crates, hooks=hooks, inline=inline, max_depth=max_depth)
 
 
 def consumed(path):
